@@ -39,6 +39,7 @@ GEOMS = [
     ("specialized", "antarctic", (100.0, -50.0, -2700.0), 1500.0, -800.0),
     ("specialized", "antarctic", (100.0, -50.0, -900.0), 400.0, -1300.0),
     ("basic", "antarctic", (100.0, -50.0, -200.0), 300.0, -100.0),
+    ("basic", "greenland", (0.0, 0.0, -150.0), 250.0, -30.0),
     ("uniform", "u16", (300.0, -200.0, -250.0), 400.0, -400.0),
     ("uniform", "u16", (300.0, -200.0, -100.0), 48.0, -700.0),
     ("uniform", "u16", (300.0, -200.0, -100.0), 0.0, -700.0),
